@@ -211,7 +211,14 @@ fn run_aucperm(job: &Job) {
     // Lehmer code → permutation of 0..n
     let mut rest: Vec<usize> = (0..n).collect();
     let scores: Vec<f64> = (0..n).map(|i| m * rest.remove(ch.next(n - i)) as f64 + a).collect();
-    let labels: Vec<u8> = (0..n).map(|_| ch.next(2) as u8).collect();
+    let labels: Vec<u8> = if job.b("single") {
+        // exactly one positive, or exactly one negative, at every position: AUC then reveals the rank
+        // the library assigned to that element, so the whole argsort is checked
+        let q = ch.next(2 * n);
+        (0..n).map(|i| ((i == q % n) == (q < n)) as u8).collect()
+    } else {
+        (0..n).map(|_| ch.next(2) as u8).collect()
+    };
     auc_both(&labels, &scores, job.b("f32"), &String::new);
 }
 
@@ -338,7 +345,7 @@ fn run_prod(job: &Job) {
     }
     mc::nontrivial();
     mc::outcome(digest_rounded(&out));
-    mc::describe(|| json!({"layout_kind": PROD_KINDS[kind], "a": a, "b": b, "row_weights": r, "col_weights": s, "multiplier": m, "n": n}));
+    mc::describe(|| json!({"layout_kind": PROD_KINDS[kind], "a": a, "b": b, "row_weights": format!("{} {:?}", WEIGHT_FAMILY_NAMES[fr], r), "col_weights": format!("{} {:?}", WEIGHT_FAMILY_NAMES[fs], s), "multiplier": m, "n": n}));
 }
 
 impl Harness for C15 {
@@ -384,7 +391,7 @@ impl Harness for C15 {
         }
 
         // ---- cluster scores: every pair of labellings
-        let hcv_plan: &[(usize, usize)] = if t { &[(2, 10), (3, 8), (4, 6), (5, 5)] } else { &[(2, 8), (3, 6), (4, 5)] };
+        let hcv_plan: &[(usize, usize)] = if t { &[(2, 10), (3, 8), (4, 6), (5, 5)] } else { &[(2, 8), (3, 6), (4, 4)] };
         for (k, nmax) in hcv_plan {
             for n in 1..=*nmax {
                 // {0,1}^n is contained in {0,1,2}^n: skip what a larger alphabet already covers
@@ -451,11 +458,18 @@ impl Harness for C15 {
             push_split(&mut jobs, &format!("auc-t3-n{}", n), json!({"kind": "auc", "n": n, "alpha": 1, "seed": seed, "f32": n <= 8}), &[vec![3; n], vec![2; n]].concat(), cap);
         }
         // every permutation of n distinct scores x every label vector
-        let perm_max = if t { 9 } else { 8 };
+        let perm_max = if t { 9 } else { 7 };
         for n in 2..=perm_max {
             let mut radices: Vec<usize> = (0..n).map(|i| n - i).collect();
             radices.extend(vec![2; n]);
             push_split(&mut jobs, &format!("auc-perm-n{}", n), json!({"kind": "aucperm", "n": n, "seed": seed, "f32": n <= 7}), &radices, cap);
+        }
+        // every permutation x every label vector with exactly one positive or exactly one negative
+        let single_max = if t { 10 } else { 8 };
+        for n in (perm_max + 1)..=single_max {
+            let mut radices: Vec<usize> = (0..n).map(|i| n - i).collect();
+            radices.push(2 * n);
+            push_split(&mut jobs, &format!("auc-perm1-n{}", n), json!({"kind": "aucperm", "n": n, "seed": seed, "f32": false, "single": true}), &radices, cap);
         }
         // structured families up to n = 200
         let aucs_ns: Vec<usize> = if t { (2..=200).collect() } else { (2..=40).chain([63, 64, 65, 100, 128, 200]).collect() };
@@ -478,14 +492,14 @@ impl Harness for C15 {
                 ("mismatch_rejected_with_size_message", 5_000),
                 ("auc_tied_scores", 1_000_000),
                 ("auc_constant_scores", 1_000),
-                ("auc_distinct_scores", 1_000_000),
+                ("auc_distinct_scores", 500_000),
                 ("auc_quicksort_partition_path", 1_000_000),
                 ("auc_single_positive_or_negative", 100_000),
                 ("regression_pairs", 300_000),
                 ("regression_structured", 60_000),
                 ("r2_negative", 10_000),
                 ("r2_undefined_constant_truth", 1_000),
-                ("hcv_label_pairs", 1_000_000),
+                ("hcv_label_pairs", 500_000),
                 ("hcv_tables", 100_000),
                 ("hcv_structured_layouts", 10_000),
                 ("hcv_single_class_true", 1_000),
@@ -500,7 +514,7 @@ impl Harness for C15 {
                 "binary_metrics": format!("accuracy, precision, recall, F-beta (beta in 1, 1/2, 2), f64 and f32: every pair of binary vectors of length 1..{}; every confusion-count vector (tp,fp,fn,tn) with sum n for n in {:?} x 3 layouts", bin_max, summarize(&conf_ns)),
                 "accuracy_multiclass": format!("every pair over 3 label values, length 1..{}", if t { 7 } else { 5 }),
                 "length_mismatch": format!("every ordered pair of different lengths from {:?} x 3 fill patterns x 7 pairwise metrics x f64/f32", MISMATCH_LENGTHS),
-                "auc": format!("every (score vector, label vector with both classes): scores over {{0,1/4,1/2,1}} n=2..{}; over {{0,1,2}} n=8..{}; every permutation of n distinct scores n=2..{}; structured families (16 score families x 4 transforms x 7 label families with all parameters) for n in {}", q4_max, t3_max, perm_max, summarize(&aucs_ns)),
+                "auc": format!("every (score vector, label vector with both classes): scores over {{0,1/4,1/2,1}} n=2..{}; over {{0,1,2}} n=8..{}; every permutation of n distinct scores n=2..{} x every label vector, and n={}..{} x every label vector with exactly one positive or one negative; structured families (16 score families x 4 transforms x 7 label families with all parameters) for n in {}", q4_max, t3_max, perm_max, perm_max + 1, single_max, summarize(&aucs_ns)),
                 "regression": format!("mse, mae, r2, f64 and f32: every pair over {{0,1,-2,3}}^n, n=1..{} x scales {:?}{}; structured families (7 truth x 10 prediction x 5 scales) for every n=1..200", reg_max, SCALE_NAMES, if t { "" } else { " (+ n=5 at scale 1)" }),
                 "cluster_scores": format!("every pair of labellings over k values, (k, n<=): {:?}; every a x b contingency table over a cell alphabet x 3 sample orders: {:?}; product/identical/refinement/coarsening/near-identical layouts for every 1<=a,b<=8 x 4x4 weight families x multipliers {:?} x 3 orders, n<={}; every case also with exchanged arguments and under label renamings {:?}", hcv_plan, tabs, PROD_MULT, nmax, RENAMINGS.iter().map(|r| r.0).collect::<Vec<_>>()),
                 "seed_variant": {"score_affine": SEED_SCORE[(seed % 8) as usize], "regression_shift": SEED_REG_SHIFT[(seed % 8) as usize], "label_offset": SEED_LABEL_OFFSET[(seed % 8) as usize]},
